@@ -59,6 +59,11 @@ def run(ctx):
                                     "tests/_simulators/gaussian/test_measurements.py",
                                     "tests/_simulators/passive/test_measurements.py",
                                     "tests/fermionic/fock/test_measurements.py"])
+        # tests/api drives the engine with test doubles (FakeSimulator, FakeMeasurement, ...) whose steps do not implement any semantics:
+        # only executions of real piquasso simulators are inside the model
+        real = {"PureFockSimulator", "FockSimulator", "GaussianSimulator", "PassiveSimulator", "SamplingSimulator"}
+        ctx.notes["repo_test_traces"] = {"recorded": len(traces), "of_real_simulators": sum(1 for t in traces if t["meta"].get("sim") in real)}
+        traces = [t for t in traces if t["meta"].get("sim") in real]
         EC.validate_traces(ctx, "C03", traces, "repo-tests")
     ctx.assumptions += ["physics abstracted at this level: branch weights/states are compared with exact values in the C01/C05 replays",
                         "recorder patch points (Simulator/Instruction methods) are the complete set of linearisation points"]
